@@ -1,0 +1,17 @@
+//! Verification hooks.  Only compiled with `--cfg rescrv_blue_verif`.
+
+use std::sync::atomic::{AtomicUsize, Ordering};
+
+static WAIT_LIST_SLOTS: AtomicUsize = AtomicUsize::new(0);
+
+/// Wait lists created from now on have this many slots (0 restores the build's default).
+pub fn set_wait_list_slots(slots: usize) {
+    WAIT_LIST_SLOTS.store(slots, Ordering::SeqCst);
+}
+
+pub(crate) fn wait_list_slots() -> Option<usize> {
+    match WAIT_LIST_SLOTS.load(Ordering::SeqCst) {
+        0 => None,
+        n => Some(n),
+    }
+}
